@@ -35,7 +35,7 @@ func scalarFull(k ref.Kind, tier Tier) []*ref.Val {
 			ref.DoubleBits(0x7ff8000000000001), ref.DoubleBits(0xfff8dead0000beef), ref.DoubleBits(1),
 		}
 	case ref.KString:
-		r := []*ref.Val{ref.Str(""), ref.Str("a"), ref.Str("ab\x00")}
+		r := []*ref.Val{ref.Str(""), ref.Str("a"), ref.Str("ab\x00"), ref.Str("\xff\xfe\x80 not utf-8")}
 		for _, n := range strLens(tier) {
 			r = append(r, ref.Str(fill(n)))
 		}
@@ -52,9 +52,9 @@ func scalarFull(k ref.Kind, tier Tier) []*ref.Val {
 
 func strLens(tier Tier) []int {
 	if tier == Quick {
-		return []int{255, 257, 2049}
+		return []int{255, 257, 2049, 4097}
 	}
-	return []int{255, 256, 257, 2047, 2048, 2049, 70000}
+	return []int{255, 256, 257, 2047, 2048, 2049, 4095, 4096, 4097, 65535, 65536, 70000}
 }
 
 func fill(n int) string {
